@@ -46,6 +46,8 @@ instance (k : IntKind) (v : Int) : Decidable (k.InRange v) := by unfold IntKind.
 /-- the widths Go has -/
 def IntKind.WF (k : IntKind) : Prop := 1 ≤ k.bits ∧ k.bits ≤ 64
 
+instance (k : IntKind) : Decidable k.WF := by unfold IntKind.WF; exact inferInstance
+
 /-- a dynamically typed Go scalar, as stored in an `any`: `==` on two `any`s is equality of the
 dynamic type AND of the value -/
 inductive Scalar where
@@ -123,9 +125,15 @@ def Value.less (v w : Value) : Bool :=
 /-- the constants of enum type `t`, in source order (`generate.go:57-84`) -/
 def collect (f : FileDef) (t : String) : List Const := f.consts.filter (fun c => c.ty == t)
 
+/-- insert `x` before the first element it is `Less` than -/
+def insertBy (less : Value → Value → Bool) (x : Value) : List Value → List Value
+  | [] => [x]
+  | y :: ys => if less x y then x :: y :: ys else y :: insertBy less x ys
+
 /-- `sort.Sort(values)`. Contract of `sort.Sort`: a permutation sorted by `Less`; `Less` is a
-strict total order on constants with distinct names, so that permutation is unique. -/
-def sortValues (l : List Value) : List Value := l.mergeSort (fun a b => !b.less a)
+strict total order on the constants of one type (distinct names), so that permutation is unique
+and any sorting algorithm yields it; written here as an insertion sort. -/
+def sortValues (l : List Value) : List Value := l.foldr (insertBy Value.less) []
 
 /-- loop of `ValueDeduplicatedSet` from index 1 on: `cur` is `result[len(result)-1]`
 (`lastValue` is always `cur.value`), `ad` is `addedDeprecated`; the returned list is the final
@@ -158,6 +166,9 @@ def dedupLegacy (s : List Value) : List Value :=
   | [] => []
   | v :: rest => dedupLoopLegacy v v.deprecated rest
 
+/-- `strings.ToLower` on ASCII text (identifiers and inputs are ASCII, see the header) -/
+def asciiLower (s : String) : String := String.ofList (s.toList.map Char.toLower)
+
 /-- one `case c1, c2, …: return Target, nil` of the `Parse<T>` switch -/
 structure ParseCase where
   consts : List Dyn
@@ -182,7 +193,7 @@ def renderWith (dd : List Value → List Value) (o : Options) (tname : String) (
     table := dd vs
     nAll := vs.length
     cases := vs.map (fun v => ⟨[Dyn.ofString v.name], v⟩)
-    lowerCases := if o.caseInsensitive then some (vs.map (fun v => (v.name.toLower, v))) else none }
+    lowerCases := if o.caseInsensitive then some (vs.map (fun v => (asciiLower v.name, v))) else none }
 
 /-- generator + template for enum type `t` of file `f` -/
 def genType (o : Options) (f : FileDef) (t : String) : GenOut :=
@@ -247,7 +258,7 @@ def GenOut.parse (g : GenOut) (input : Dyn) : Option Int :=
   | none =>
     match g.lowerCases, input with
     | some lc, ⟨"string", .str s⟩ =>
-      match lc.find? (fun p => p.1 == s.toLower) with
+      match lc.find? (fun p => p.1 == asciiLower s) with
       | some p => some p.2.val
       | none => none
     | _, _ => none
@@ -273,16 +284,30 @@ def IsPrimary (f : FileDef) (t : String) (e : Int) (n : String) : Prop :=
        ∀ c' ∈ f.consts, c'.ty = t → c'.val = e → n ≤ c'.name))
 
 /-- equal up to ASCII case -/
-def EqFold (a b : String) : Prop := a.toLower = b.toLower
+def EqFold (a b : String) : Prop := asciiLower a = asciiLower b
 
 /-- what Go's declaration rules give: constant names of a file are pairwise distinct -/
 def NamesDistinct (f : FileDef) : Prop := (f.consts.map (·.name)).Nodup
 
 /-- names of type `t` stay distinct when folded to lower case (otherwise the file generated
 with `-caseInsensitive` does not compile) -/
-def NamesDistinctFold (f : FileDef) (t : String) : Prop := (((collect f t).map (·.name.toLower))).Nodup
+def NamesDistinctFold (f : FileDef) (t : String) : Prop := ((collect f t).map (fun c => asciiLower c.name)).Nodup
 
 /-- every constant of type `t` is a value of the underlying Go type -/
 def InRangeConsts (f : FileDef) (t : String) (k : IntKind) : Prop := ∀ c ∈ f.consts, c.ty = t → k.InRange c.val
+
+instance (f : FileDef) (t : String) (e : Int) : Decidable (Defined f t e) := by unfold Defined; exact inferInstance
+instance (f : FileDef) : Decidable (NamesDistinct f) := by unfold NamesDistinct; exact inferInstance
+instance (f : FileDef) (t : String) : Decidable (NamesDistinctFold f t) := by unfold NamesDistinctFold; exact inferInstance
+instance (f : FileDef) (t : String) (k : IntKind) : Decidable (InRangeConsts f t k) := by
+  unfold InRangeConsts; exact inferInstance
+
+/-- "every enum definition genum accepts": what Go's type checker guarantees for a definition
+file that compiles — the underlying type is a Go integer type, every constant of the type is one
+of its values, constant names are distinct -/
+structure Accepted (f : FileDef) (t : String) (k : IntKind) : Prop where
+  kind : k.WF
+  inRange : InRangeConsts f t k
+  names : NamesDistinct f
 
 end Genum
